@@ -7,6 +7,12 @@ CONC_NOTE = ("Proved for all interleavings of the atomic steps of any number of 
              "a weakened ordering is detected as a broken correspondence (… no-failing-input-found), it cannot be exhibited by an SC scheduler. ")
 
 META = {
+    "C13": dict(
+        text="Kernel-checked: compatible_generated (decide +kernel over the REGENERATED tables: every field the generated Rust code writes is declared in proto_model.proto with the same name, number, repetition, compatible type and matching size rule, and vice versa), "
+             "package_is_prometheus, metric_type_numbers, varint_roundtrip (all values < 2^64), fixed64_roundtrip (every f64 bit pattern), refused_iff (Err exactly for a family without name or samples), stream_is_concatenation (one length-delimited frame per family, in order). "
+             "Tie: ProtobufEncoder::encode bytes vs the table-driven Lean writer, byte for byte; the independent schema-driven Lean decoder is run on the REAL bytes and must return exactly the families and consume the whole stream.",
+        note="The generic message_roundtrip theorem (decode (encode m) = m for compatible tables) is being added on top of the primitive round trips; until then the message level is covered by the decoder run on the real bytes. protobuf crate primitives are modelled.",
+    ),
     "C04": dict(
         text="Kernel-checked: escape_eq_flatMap (the memchr fast path of escape_string equals escaping every byte), unescape_escape (for ALL byte strings, both modes: the reader recovers exactly the original text), escape_no_newline (no help text or label value can add or end a line), "
              "quoted_value_reads_back / label_value_roundtrip (reading a quoted label value stops exactly at the encoder's closing quote and recovers the value), append_only, header_lines (number of header lines independent of the help's content). "
